@@ -7,6 +7,7 @@ ID, n, tier = sys.argv[1], sys.argv[2], sys.argv[3]
 props = sys.argv[4:]
 ROOT = os.environ.get("MUT_ROOT", "/tmp/mut")
 OFF = int(os.environ.get("SEED_OFFSET", "0"))
+os.makedirs("/tmp/mut", exist_ok=True)      # scratch (worktree for the independent confirmation, demo binaries): outside /repo and /verif
 src = f"{ROOT}/{ID}/out/{n}"
 patch = f"{src}/patch.diff"
 wt = f"/tmp/mut/confirm-{ID}-{int(n)+OFF}"
@@ -26,7 +27,7 @@ try:
         print("PATCH DOES NOT APPLY:", a.stdout[-500:]); sys.exit(3)
     # a diff of the applied state against HEAD is what we store (so it applies to the current /repo)
     diff = sh(f"git -C {wt} diff HEAD").stdout
-    s = sh(f"/tmp/mut/run_suite.sh {wt}")
+    s = sh(f"{os.path.dirname(os.path.abspath(__file__))}/run_suite.sh {wt}")
     meta["suite_with_change"] = "100% tests passed" in s.stdout
     meta["suite_tail"] = s.stdout.strip().splitlines()[-3:]
     # demo
